@@ -163,10 +163,37 @@ def np_index(s):
 
 
 # ------------------------------------------------------------------ real-code adapter
+def word(t):
+    """Injective token -> string map with lengths 1..8: base-25 digits 'b'..'z' of t, padded with 'a' to a length
+    that depends on t (so that a truncated value never decodes to a valid token)."""
+    if t == 0:
+        return ""
+    d = ""
+    k = t
+    while k:
+        d = chr(ord("b") + k % 25) + d
+        k //= 25
+    return d + "a" * max(0, 1 + t % 8 - len(d))
+
+
+def unword(s):
+    """Inverse of `word`; None for a string that is not the image of a token (e.g. a truncated one)."""
+    s = str(s)
+    if s == "":
+        return 0
+    core = s.rstrip("a")
+    if not core or any(not ("b" <= c <= "z") for c in core):
+        return None
+    k = 0
+    for c in core:
+        k = k * 25 + (ord(c) - ord("b"))
+    return k if word(k) == s else None
+
+
 def _val(name, t):
     k = kind_of(name)
     if k == "s":
-        return "" if t == 0 else str(t)
+        return word(t)
     if k == "b":
         return bool(t)
     if k == "f":
@@ -178,12 +205,13 @@ def _np_col(name, ts):
     import numpy as np
     k = kind_of(name)
     if k == "s":
-        return np.array([_val(name, t) for t in ts], dtype="U2")
+        # natural width of the values: string annotations of different arrays have different dtypes
+        return np.array([_val(name, t) for t in ts], dtype=str) if ts else np.array([], dtype="U1")
     return np.array([_val(name, t) for t in ts], dtype={"b": bool, "f": float}.get(k, int))
 
 
 def _dtype(name):
-    return {"s": "U2", "b": bool, "f": float}.get(kind_of(name), int)
+    return {"s": "U1", "b": bool, "f": float}.get(kind_of(name), int)
 
 
 def _np_coord(blocks, stack, n=0):
@@ -203,7 +231,8 @@ def _tok(name, v):
     try:
         k = kind_of(name)
         if k == "s":
-            return "0" if str(v) == "" else str(int(str(v)))
+            t = unword(v)
+            return str(t) if t is not None else "?" + str(v)      # values are compared as strings
         f = float(v)
         return str(int(f)) if f == int(f) else "X"
     except Exception:  # noqa: BLE001
@@ -1176,7 +1205,7 @@ class Gen:
             self.link(d, [s])
             return
         if o == "addann":
-            self.emit(f"addann {s} {rng.choice(['i_x', 'f_y', 'b_w', 'i_q'])}")
+            self.emit(f"addann {s} {rng.choice(['i_x', 'f_y', 's_z', 'b_w', 'i_q'])}")
             return
         if o == "setann":
             name = rng.choice(sorted(c.names) + ["i_x", "s_z", "i_q"])
